@@ -10,6 +10,6 @@ evd="$(mktemp -d /tmp/tryseed-ev-XXXXXX)"
 trap cleanup EXIT
 if ! git -C "$wt" apply --3way "$patch" 2>"$evd/apply.err"; then echo "PATCH DOES NOT APPLY: $(head -3 "$evd/apply.err")"; exit 3; fi
 cd /verif && VERIF_REPO="$wt" VERIF_EVIDENCE_DIR="$evd" ./check "$id" --tier "$tier" > "$evd/log" 2>&1; rc=$?
-echo "rc=$rc"; grep -E '^(VIOLATION|KNOWN-FINDING|INCONCLUSIVE|EVIDENCE)' "$evd/log" | cut -c1-260 | head -8
+echo "rc=$rc"; grep -E '^(VIOLATION|INCONCLUSIVE|EVIDENCE)' "$evd/log" | cut -c1-260 | head -12; grep -c '^KNOWN-FINDING' "$evd/log" | sed 's/^/known-finding lines: /'
 cp "$evd/log" "/tmp/try_seed.$id.last.log" 2>/dev/null
 exit $rc
